@@ -18,7 +18,7 @@ func init() {
 	register("C17", &Check{Level: "exploration", Run: runC17})
 }
 
-var c17Fields = []string{"term", "type", "data-flip", "data-trunc", "data-extend", "data-empty", "ext-add", "ext-change", "index", "swap"}
+var c17Fields = []string{"term", "type", "data-flip", "data-trunc", "data-extend", "data-empty", "ext-add", "ext-change", "index", "swap", "swap-whole"}
 
 // c17Mutate applies the named single-field mutation. It reports false when the
 // mutation does not apply to this entry (caller picks another).
@@ -63,6 +63,8 @@ func c17Mutate(field string, l *raft.Log, isCP bool) bool {
 	}
 	return true
 }
+
+func isSwap(f string) bool { return f == "swap" || f == "swap-whole" }
 
 type c17Case struct {
 	Seed  int64
@@ -124,14 +126,14 @@ func c17Run(c *evid.Ctx, cs c17Case) {
 	default:
 		p = cp1 + uint64(rng.Intn(int(cp2-cp1)))
 	}
-	if cs.Field == "swap" && p+1 >= cp2 {
+	if isSwap(cs.Field) && p+1 >= cp2 {
 		p = cp2 - 2
 		if p <= cp1 { // need two adjacent non-checkpoint entries
 			c.Count("skipped_not_applicable", 1)
 			return
 		}
 	}
-	if cs.Field == "swap" && p == cp1 {
+	if isSwap(cs.Field) && p == cp1 {
 		p++
 		if p+1 >= cp2 {
 			c.Count("skipped_not_applicable", 1)
@@ -139,15 +141,15 @@ func c17Run(c *evid.Ctx, cs c17Case) {
 		}
 	}
 	isCP := p == cp1
-	if cs.Field == "index" && cs.Site == "inflight" {
+	if (cs.Field == "index" || cs.Field == "swap-whole") && cs.Site == "inflight" {
 		c.Count("skipped_not_applicable", 1)
 		return
 	}
 	applied := false
 	var swapData []byte
 	mut := func(l *raft.Log) {
-		if l.Index == p || (cs.Field == "swap" && l.Index == p+1) {
-			if cs.Field == "swap" {
+		if l.Index == p || (isSwap(cs.Field) && l.Index == p+1) {
+			if isSwap(cs.Field) {
 				// exchange the Data of entries p and p+1 (read the partner from the leader's
 				// underlying store, which is complete before any verification starts)
 				oi := p + 1
@@ -158,7 +160,12 @@ func c17Run(c *evid.Ctx, cs c17Case) {
 				if err := ld.Under.GetLog(oi, &other); err != nil {
 					return
 				}
-				if string(other.Data) != string(l.Data) {
+				if cs.Field == "swap-whole" {
+					// the store hands back the complete neighbouring entry (its Index too): both
+					// entries are intact, only their positions are exchanged
+					*l = *model.CopyLog(&other)
+					applied = true
+				} else if string(other.Data) != string(l.Data) {
 					l.Data = append([]byte{}, other.Data...)
 					applied = true
 				}
@@ -175,12 +182,12 @@ func c17Run(c *evid.Ctx, cs c17Case) {
 	case "rest-leader":
 		victim = ld
 		ld.Faulty.SetCorrupt(p, mut)
-		if cs.Field == "swap" {
+		if isSwap(cs.Field) {
 			ld.Faulty.SetCorrupt(p+1, mut)
 		}
 	case "rest-follower":
 		f.Faulty.SetCorrupt(p, mut)
-		if cs.Field == "swap" {
+		if isSwap(cs.Field) {
 			f.Faulty.SetCorrupt(p+1, mut)
 		}
 	}
@@ -309,7 +316,7 @@ func c17Run(c *evid.Ctx, cs c17Case) {
 }
 
 func runC17(c *evid.Ctx) {
-	c.Rule("linear cluster histories with exactly one injected mutation inside a verified checkpoint range: position in {first = the previous checkpoint entry, last, middle}, field in {term, type, data flip/truncate/extend/empty, extensions add/change, index (at rest), two entries swapped}, site in {in flight to a follower, at rest on the follower, at rest on the leader}, with and without a follower middleware restart inside the range (which decides whether the written sum is compared), and in a third of the cases with a head truncation far below the range landing while the victim's verifier reads the range; the delivered report for that range must carry ErrChecksumMismatch, and no report may blame in-flight corruption when the node wrote exactly the leader's entries; non-trivial = distinct (site, field, position, restart) whose report was delivered",
+	c.Rule("linear cluster histories with exactly one injected mutation inside a verified checkpoint range: position in {first = the previous checkpoint entry, last, middle}, field in {term, type, data flip/truncate/extend/empty, extensions add/change, index (at rest), the Data of two entries swapped, two whole entries swapped at rest}, site in {in flight to a follower, at rest on the follower, at rest on the leader}, with and without a follower middleware restart inside the range (which decides whether the written sum is compared), and in a third of the cases with a head truncation far below the range landing while the victim's verifier reads the range; the delivered report for that range must carry ErrChecksumMismatch, and no report may blame in-flight corruption when the node wrote exactly the leader's entries; non-trivial = distinct (site, field, position, restart) whose report was delivered",
 		"mutations_injected", "mutation_classes")
 	c.Assume("FNV-1a collisions are not searched for", "the index-1 configuration entry special case is excluded")
 	reps := 40
